@@ -12,6 +12,7 @@ C02.e  [flow] registry.requested is invalid at every return.
 C02.f  [cmp] in the substitution loops a request is dropped without consulting guards only if it is identical to the
        accepted transition (origin, destination, method, payload presence, payload bytes).
 C02.g  [effect] only the four request writers and request processing write the request slot.
+C02.j  [cmp] the guard wrappers report a cancellation made by any callback they run, injected guards included (shares C03.e)
 C02.i  [path] once the substitution loop is left nothing on the way to the return writes the request slot: a request left over by the
        limit is carried to the next processing point (shared as C04.d).
 C02.h  [loop] processing continues while a request is outstanding up to the *configured* substitution limit and stops no earlier
